@@ -338,3 +338,41 @@ Proof.
   { rewrite Hx. replace (E * P * k + mag) with (mag + (k * E) * P) by lia. apply N.mod_add. exact HP. }
   rewrite He, Hmm. rewrite N.mul_comm. apply N.div_mod. exact HP.
 Qed.
+
+(* ValueExistsQueryFilter with a specific fixed-size or String type code: "a field of that name and type holds at
+   least index+1 items" *)
+Theorem exists_spec_fixed m name tc idx :
+  (tc =? c_B_ANY_TYPE) = false ->
+  ((tc =? c_B_STRING_TYPE) || (0 <? elem_size (ftype_of_tc tc))) = true ->
+  exists_data m name tc idx =
+  match flookup name (msg_fields m) with
+  | Some (tc', r) => (tc =? tc') && match repr_nth idx r with Some _ => true | None => false end
+  | None => false
+  end.
+Proof.
+  intros Hany Hfix. unfold exists_data, find_data, find_item, get_field.
+  destruct (flookup name (msg_fields m)) as [[tc' r]|]; [|reflexivity].
+  rewrite Hany. cbn [orb]. destruct (tc =? tc'); [|reflexivity]. cbn [andb].
+  destruct (repr_nth idx r) as [i|]; [|reflexivity].
+  unfold find_data_tc. destruct (tc =? c_B_STRING_TYPE); [destruct i; reflexivity|].
+  cbn [orb] in Hfix. rewrite Hfix. destruct i; reflexivity.
+Qed.
+
+(* ... and with B_ANY_TYPE: a field of that name, of any (proper) type, holds the item *)
+Theorem exists_spec_any m name idx :
+  exists_data m name c_B_ANY_TYPE idx =
+  match flookup name (msg_fields m) with
+  | Some (tc', r) =>
+      match repr_nth idx r with
+      | Some i => negb (tc' =? c_B_ANY_TYPE) && match find_data_tc tc' i with Some _ => true | None => false end
+      | None => false
+      end
+  | None => false
+  end.
+Proof.
+  unfold exists_data, find_data, find_item, get_field.
+  destruct (flookup name (msg_fields m)) as [[tc' r]|]; [|reflexivity].
+  rewrite N.eqb_refl. cbn [orb].
+  destruct (repr_nth idx r) as [i|]; [|reflexivity].
+  destruct (tc' =? c_B_ANY_TYPE); reflexivity.
+Qed.
